@@ -15,6 +15,7 @@ Classes:
 `guaranteed` marks the forms C15 promises to be valid and parsable.
 """
 from . import lib
+from . import terminal as _T
 
 AF = lib.AnsiFormat
 AS = lib.AnsiSetting
@@ -123,6 +124,10 @@ _add('h:dul_color256(9)', 'helper', ('dul_color256', (9,)), ['21', '58;5;9'], cl
 _add('h:fg_color256(200)', 'helper', ('fg_color256', (200,)), ['38;5;200'], guaranteed=True)
 _add('h:bg_colour256(17)', 'helper', ('bg_colour256', (17,)), ['48;5;17'], guaranteed=True)
 _add('h:rgb(300,-4,5)', 'helper', ('rgb', (300, -4, 5)), ['38;2;255;0;5'], guaranteed=True)
+# every other set / clear code as a bare int (the self-check below drops what the library does not know)
+for _c in sorted(set(_T.SET) | set(_T.CLEAR)):
+    if 'i:%d' % _c not in CATALOGUE:
+        _add('i:%d' % _c, 'int', _c, [str(_c)], guaranteed=True)
 # rgb()/color256() strings
 _add('r:rgb(1,2,3)', 'rgbstr', 'rgb(1,2,3)', ['38;2;1;2;3'])
 _add('r:bg_rgb(0x010203)', 'rgbstr', 'bg_rgb(0x010203)', ['48;2;1;2;3'])
